@@ -1276,7 +1276,8 @@ esccpy(char *restrict tgt, size_t tz, const char *src, size_t sz)
 		}
 		/* not sure what to do with long lines */
 		if (UNLIKELY(ti >= tz)) {
-			/* ignore them */
+			/* ignore them, but leave TGT terminated where it was */
+			*tgt = '\0';
 			return 0U;
 		}
 	}
